@@ -204,6 +204,7 @@ impl Job for Complete {
                 let _ = writeln!(f, "{}", serde_json::to_string(&bytes).unwrap());
             }
         }
+        let unique = proof.num_unique_queries as usize;
         let v1 = verify_with::<B, H, DefaultRandomCoin<H>>(proof, b.inputs.clone());
         let parsed = guarded(|| Proof::from_bytes(&bytes));
         let (parse, v2) = match parsed {
@@ -214,7 +215,7 @@ impl Job for Complete {
             Ok(Err(e)) => (format!("error: {e}"), None),
             Err(p) => (format!("panic@{}", panic_key(&p)), None),
         };
-        json!({"id": sc.id, "prove": "ok", "verify": res_json(&v1), "bytes": bytes.len(), "parse": parse,
+        json!({"id": sc.id, "prove": "ok", "verify": res_json(&v1), "bytes": bytes.len(), "parse": parse, "unique": unique,
                "verify2": v2.map(|r| res_json(&r)).unwrap_or(json!("n/a"))})
     }
 }
